@@ -6,7 +6,8 @@
    normalisation, pycode_new), tied to the code by the correspondence run.  rt_wf_deep / rt_extra_deep
    are boolean predicates evaluated on every corpus code object by the check (group wf-monitor). *)
 From PCD Require Import Base.PyBase Base.Cfg Model.Data Model.Consts Model.Blocks Model.CodeData
-  Proofs.C01_Statements Proofs.RoundTrip Proofs.InstrCodec.
+  Proofs.C01_Statements Proofs.RoundTrip Proofs.InstrCodec Proofs.Total_Statements Proofs.DecodeTotal1
+  Proofs.DecodeTotal Proofs.C01Full.
 From PCD Require Gen.Src.
 
 (* For every interpreter configuration and every well-formed code object, at any nesting depth:
@@ -38,3 +39,23 @@ Example C01_constants_are_the_source :
   PCD.Gen.Src.c_int_upper_limit = c_int_upper_limit /\ PCD.Gen.Src.c_int_length = c_int_length /\
   PCD.Gen.Src.FN_FLAGS = FN_FLAGS /\ PCD.Gen.Src.FN_TYPE_FLAGS = map fst FN_TYPE_FLAGS.
 Proof. repeat split; vm_compute; reflexivity. Qed.
+
+(* The whole property in one statement.  total_wf_deep is a boolean on the code object alone (every
+   nesting level): the round-trip domain rt_wf / rt_extra plus a decodable header (hdr_ok: the flags word
+   has only known bits and a coherent function / non-function shape, the *args / **kwargs slots exist,
+   CO_NOFREE agrees with the tables, every table operand is in range, co_lnotab does not run past the
+   code).  On that domain from_code SUCCEEDS and to_code of the result is the identical code object.
+   The check evaluates total_wf_deep on every corpus code object of every run; the one known class of
+   compiled code outside it is recorded as a finding (from __future__ import barry_as_FLUFL). *)
+Theorem C01_from_code_succeeds_and_to_code_is_identity : forall c code,
+  total_wf_deep c (PCode code) = true ->
+  exists d, to_code_data c code = OK d /\ from_code_data c d = OK code.
+Proof. exact C01_full. Qed.
+Print Assumptions C01_from_code_succeeds_and_to_code_is_identity.
+
+(* one level: under the round-trip domain, decoding succeeds exactly when the header is decodable *)
+Theorem C01_decoding_succeeds_iff_header_ok : forall c code ks,
+  rt_wf c code ks && rt_extra c code = true ->
+  (hdr_ok c code ks = true <-> exists d, decode_code c code ks = OK d).
+Proof. exact decode_total_iff. Qed.
+Print Assumptions C01_decoding_succeeds_iff_header_ok.
